@@ -5,7 +5,7 @@
    C01_server_hello_parsed, C01_tls12_keys_installed_aead, C01_plain_handshake_* and C01_tls12_aead_session: their hypotheses fit. *)
 From Coq Require Import ZArith List Bool Lia.
 From Coq Require String.
-Require Import PyLib PyLibP SuiteTypes SuiteParser Crypto KeySchedule Packet Reassembly Decryptor TlsSession TlsRecords C01P C01SessionP C01Session12P Hs13P PlainHsP HelloP Fresh12P Keys12P.
+Require Import PyLib PyLibP SuiteTypes SuiteParser Crypto KeySchedule Packet Reassembly Decryptor TlsSession TlsRecords C01P C01SessionP C01Session12P C01SessionLegacyP Hs13P PlainHsP HelloP Fresh12P Keys12P.
 Import ListNotations.
 Open Scope Z_scope.
 
@@ -284,5 +284,216 @@ Proof.
   exists s', ([meta_entry rc false] ++ out). split.
   - cbn [session_run]. rewrite Hrc. cbn [bind fst snd]. cbn [session_run] in Hrun. rewrite Hrun. reflexivity.
   - rewrite data_entries_app, Hd. reflexivity.
+Qed.
+
+(* ---- the same composition for the other protection classes: the generic part ---- *)
+(* the ServerHello record, whatever the class: generate_keys on the state behind the parse yields a decryptor with the property Phi *)
+Lemma sh_record_gen (Phi : decryptor -> Prop) s r hv random sid suite es more v :
+  ts_client_hello_seen s = true -> ts_server_cc s = false -> ts_client_cc s = false -> hsst true s = (0, []) ->
+  r_type r = 22 -> r_body r = sh_message hv random sid suite 0 es ++ more ->
+  len hv = 2 -> len random = 32 -> len sid < 256 -> len suite = 2 ->
+  match es with None => True | Some l => Forall ext_ok l /\ len (enc_exts l) < 65536 end ->
+  version_choice (from_be (r_version r)) (from_be hv) es = Some v ->
+  (forall s2, ts_client_random s2 = ts_client_random s -> ts_compression s2 = 0 -> ts_extensions s2 = exts_dict es ->
+     exists d, generate_keys C tbl parts keylog s2 v suite random = Ok (set_dec s2 (Some d)) /\ Phi d) ->
+  exists s' d, handle_tls_record C tbl parts keylog s r true = Ok (s', [meta_entry r true]) /\
+               ts_can_decrypt s' = true /\ ts_version s' = VSet v /\ ts_client_cc s' = false /\ ts_server_cc s' = false /\
+               ts_decryptor s' = Some d /\ Phi d /\ hsst true s' = hs_step (0, []) (r_body r) /\ hsst false s' = hsst false s.
+Proof.
+  intros Hch H1 H2 Hst Hty Hb Lhv Lr Lsid Lsu Hes Hv Hkeys.
+  unfold handle_tls_record. rewrite Hty. change (22 =? 22) with true. cbv iota.
+  assert (Hb2 : r_body r = 2 :: (to_be_total (len (sh_body hv random sid suite es)) 3 ++ sh_body hv random sid suite es) ++ more) by (rewrite Hb; reflexivity).
+  rewrite (plain_record_eq C tbl parts keylog s r true 2 _) by (try (rewrite H1, H2; reflexivity); exact Hb2). cbv zeta. rewrite Hst.
+  change ((0 <? fst (0, @nil Z)) || (0 <? len (snd (0, @nil Z)))) with false. change (2 =? 1) with false. change (2 =? 2) with true. cbv iota.
+  set (st' := hs_step (0, []) (r_body r)). set (s1 := set_pending s true (fst st') (snd st')).
+  rewrite (server_hello_parsed C tbl parts keylog s1 r hv random sid suite 0 es more Hch Hb Lhv Lr Lsid Lsu ltac:(lia) Hes). cbv zeta.
+  change (match (if from_be (r_version r) =? 768 then Some SSL30 else if from_be (r_version r) =? 770 then Some TLS11
+                 else if from_be hv =? 769 then Some TLS10 else if from_be hv =? 771
+                      then Some (if match ext_get [0; 43] (exts_dict es) with Some v0 => bytes_eqb v0 [3; 4] | None => false end then TLS13 else TLS12) else None)
+          with Some v0 => _ | None => _ end)
+    with (match version_choice (from_be (r_version r)) (from_be hv) es with
+          | Some v0 => generate_keys C tbl parts keylog
+                         (upd (upd s1 true true (ts_server_cc s1) (ts_client_cc s1) (ts_client_random s1) (ts_version s1) (exts_dict es) 0 (ts_decryptor s1))
+                              (ts_can_decrypt (upd s1 true true (ts_server_cc s1) (ts_client_cc s1) (ts_client_random s1) (ts_version s1) (exts_dict es) 0 (ts_decryptor s1))) true
+                              (ts_server_cc (upd s1 true true (ts_server_cc s1) (ts_client_cc s1) (ts_client_random s1) (ts_version s1) (exts_dict es) 0 (ts_decryptor s1)))
+                              (ts_client_cc (upd s1 true true (ts_server_cc s1) (ts_client_cc s1) (ts_client_random s1) (ts_version s1) (exts_dict es) 0 (ts_decryptor s1)))
+                              (ts_client_random (upd s1 true true (ts_server_cc s1) (ts_client_cc s1) (ts_client_random s1) (ts_version s1) (exts_dict es) 0 (ts_decryptor s1)))
+                              (VSet v0) (exts_dict es) 0 (ts_decryptor (upd s1 true true (ts_server_cc s1) (ts_client_cc s1) (ts_client_random s1) (ts_version s1) (exts_dict es) 0 (ts_decryptor s1))))
+                         v0 suite random
+          | None => Ok (set_can (upd s1 true true (ts_server_cc s1) (ts_client_cc s1) (ts_client_random s1) (ts_version s1) (exts_dict es) 0 (ts_decryptor s1)) false) end).
+  rewrite Hv.
+  match goal with |- context [generate_keys C tbl parts keylog ?sx v suite random] => set (s2 := sx) end.
+  destruct (Hkeys s2 eq_refl eq_refl eq_refl) as (d & Hg & HP).
+  rewrite Hg. cbn [rmap bind fst snd app]. exists (set_dec s2 (Some d)), d. split; [reflexivity|].
+  split; [reflexivity|]. split; [reflexivity|]. split; [exact H2|]. split; [exact H1|]. split; [reflexivity|]. split; [exact HP|]. split; [|reflexivity].
+  change (hsst true (set_dec s2 (Some d))) with (hsst true s1). unfold s1. rewrite hsst_set_pending. destruct st'; reflexivity.
+Qed.
+
+(* the connection, generic in the class: Inv is the class's session invariant at the start of the ChangeCipherSpec phase *)
+Theorem connection_gen (Phi : decryptor -> Prop) (Inv : tcore -> Prop) (expected : list (bool * option bytes * bool))
+  s r hv random sid suite es more v ms_s Fc mid rs :
+  (forall s1 d, ts_can_decrypt s1 = true -> ts_version s1 = VSet v -> ts_client_cc s1 = false -> ts_server_cc s1 = false -> ts_decryptor s1 = Some d -> Phi d -> Inv s1) ->
+  (forall s1 s2, core_eq s1 s2 -> Inv s1 -> Inv s2) ->
+  (forall s1, Inv s1 -> exists s' out, session_run C tbl parts keylog s1 rs = Ok (s', out) /\ data_entries out = expected) ->
+  ts_client_hello_seen s = true -> ts_server_cc s = false -> ts_client_cc s = false -> hsst true s = (0, []) -> hsst false s = (0, []) ->
+  r_type r = 22 -> r_body r = sh_message hv random sid suite 0 es ++ more ->
+  len hv = 2 -> len random = 32 -> len sid < 256 -> len suite = 2 ->
+  match es with None => True | Some l => Forall ext_ok l /\ len (enc_exts l) < 65536 end -> wfm (2, sh_body hv random sid suite es) ->
+  version_choice (from_be (r_version r)) (from_be hv) es = Some v ->
+  (forall s2, ts_client_random s2 = ts_client_random s -> ts_compression s2 = 0 -> ts_extensions s2 = exts_dict es ->
+     exists d, generate_keys C tbl parts keylog s2 v suite random = Ok (set_dec s2 (Some d)) /\ Phi d) ->
+  Forall wfm ms_s -> Forall wfm Fc -> Forall (fun m => fst m <> 1 /\ fst m <> 2) ms_s -> Forall (fun m => fst m <> 1 /\ fst m <> 2) Fc ->
+  Forall (fun y => r_type (snd y) = 22 /\ r_body (snd y) <> []) mid -> more ++ bodies true mid = stream ms_s -> bodies false mid = stream Fc ->
+  exists s' out, session_run C tbl parts keylog s ((true, r) :: mid ++ rs) = Ok (s', out) /\ data_entries out = expected.
+Proof.
+  intros Hstart Hcore Hsess Hch H1 H2 Hss Hsc Hty Hb Lhv Lr Lsid Lsu Hes Hwsh Hv Hkeys Hwms Hwfc Hts Htc Hmid Hbs Hbc.
+  destruct (sh_record_gen Phi s r hv random sid suite es more v Hch H1 H2 Hss Hty Hb Lhv Lr Lsid Lsu Hes Hv Hkeys)
+    as (s1 & d & Hr & J1 & J2 & J3 & J4 & J5 & J6 & Hst1 & Hsc1).
+  set (Fs := (2, sh_body hv random sid suite es) :: ms_s).
+  assert (HwFs : Forall wfm Fs) by (constructor; assumption).
+  assert (Hstream : stream Fs = r_body r ++ bodies true mid).
+  { unfold Fs. change (stream ((2, sh_body hv random sid suite es) :: ms_s)) with (hm (2, sh_body hv random sid suite es) ++ stream ms_s).
+    rewrite <- Hbs, Hb, sh_is_hm, app_assoc. reflexivity. }
+  assert (Hstep : hs_step (0, []) (r_body r) = stf Fs (length (r_body r))).
+  { rewrite <- (stf_0 Fs). apply (step_spec Fs HwFs 0 (r_body r) (bodies true mid)). cbn [skipn]. exact Hstream. }
+  rewrite Hstep in Hst1.
+  assert (Hlen : (length (hm (2%Z, sh_body hv random sid suite es)) <= length (r_body r))%nat) by (rewrite Hb, sh_is_hm, app_length; lia).
+  destruct (mid_phase C tbl parts keylog Fs Fc HwFs Hwfc mid s1 (length (r_body r)) 0 [] []) as (s2 & out2 & Hrun2 & Hce & Hmeta & _ & _).
+  - exact J4.
+  - exact J3.
+  - exact Hst1.
+  - rewrite Hsc1, Hsc. symmetry. apply stf_0.
+  - exact Hmid.
+  - rewrite Hstream, skipn_app, skipn_all, Nat.sub_diag, app_nil_r. reflexivity.
+  - cbn [skipn]. rewrite app_nil_r. symmetry. exact Hbc.
+  - intros E t HE Ht. unfold Fs in Ht. cbn [type_at] in Ht. pose proof (hm_length (2%Z, sh_body hv random sid suite es)) as Hn4.
+    destruct (Nat.eqb_spec E 0) as [E0|E0]; [lia|].
+    replace ((E <? length (hm (2%Z, sh_body hv random sid suite es)))%nat) with false in Ht by (symmetry; apply Nat.ltb_ge; lia).
+    exact (no_hello_types ms_s Hts 0%nat _ t (Nat.le_0_l _) Ht).
+  - apply no_hello_types. exact Htc.
+  - assert (Hinv2 : Inv s2) by (apply (Hcore s1 s2 Hce); apply (Hstart s1 d); assumption).
+    destruct (Hsess s2 Hinv2) as (s3 & out3 & Hrun3 & Hdata).
+    exists s3, ([meta_entry r true] ++ out2 ++ out3). split.
+    + cbn [session_run]. rewrite Hr. cbn [bind fst snd]. rewrite session_run_app, Hrun2. cbn [bind fst snd]. rewrite Hrun3. reflexivity.
+    + rewrite !data_entries_app, Hdata, (data_entries_meta out2 Hmeta). reflexivity.
+Qed.
+
+Lemma find_secrets_same s s2 : ts_client_random s2 = ts_client_random s -> find_session_secrets keylog s2 = find_session_secrets keylog s.
+Proof. intros H. unfold find_session_secrets. rewrite H. reflexivity. Qed.
+
+Lemma InvG_core (Q : nat -> decryptor -> sstate -> sstate -> Prop) s s' stc sts ccc scc n : core_eq s s' -> InvG Q s stc sts ccc scc n -> InvG Q s' stc sts ccc scc n.
+Proof.
+  unfold InvG. intros (A1&A2&A3&A4&A5&A6&A7&A8&A9&A10&A11) (B1 & (v & B2 & B2') & B3 & B4 & d & B5 & B6).
+  split; [congruence|]. split; [exists v; split; [congruence|exact B2']|]. split; [congruence|]. split; [congruence|]. exists d. split; [congruence|exact B6].
+Qed.
+Lemma ChInv12_core kc ic ks is_ tag s s' stc sts ccc scc n : core_eq s s' -> Chacha.Inv12 kc ic ks is_ tag s stc sts ccc scc n -> Chacha.Inv12 kc ic ks is_ tag s' stc sts ccc scc n.
+Proof.
+  unfold Chacha.Inv12. intros (A1&A2&A3&A4&A5&A6&A7&A8&A9&A10&A11) (B1 & (v & B2 & B2') & B3 & B4 & d & B5 & B6).
+  split; [congruence|]. split; [exists v; split; [congruence|exact B2']|]. split; [congruence|]. split; [congruence|]. exists d. split; [congruence|exact B6].
+Qed.
+
+(* the premises shared by the four instances *)
+Definition hello_premises s r hv random sid suite es more v ms_s Fc mid : Prop :=
+  ts_client_hello_seen s = true /\ ts_server_cc s = false /\ ts_client_cc s = false /\ hsst true s = (0, []) /\ hsst false s = (0, []) /\
+  r_type r = 22 /\ r_body r = sh_message hv random sid suite 0 es ++ more /\
+  len hv = 2 /\ len random = 32 /\ len sid < 256 /\ len suite = 2 /\
+  match es with None => True | Some l => Forall ext_ok l /\ len (enc_exts l) < 65536 end /\ wfm (2, sh_body hv random sid suite es) /\
+  version_choice (from_be (r_version r)) (from_be hv) es = Some v /\
+  Forall wfm ms_s /\ Forall wfm Fc /\ Forall (fun m => fst m <> 1 /\ fst m <> 2) ms_s /\ Forall (fun m => fst m <> 1 /\ fst m <> 2) Fc /\
+  Forall (fun y => r_type (snd y) = 22 /\ r_body (snd y) <> []) mid /\ more ++ bodies true mid = stream ms_s /\ bodies false mid = stream Fc.
+
+Ltac use_gen Phi Inv expected :=
+  match goal with H : hello_premises _ _ _ _ _ _ _ _ _ _ _ _ |- _ =>
+    destruct H as (Hch & H1 & H2 & Hss & Hsc & Hty & Hb & Lhv & Lr & Lsid & Lsu & Hes & Hwsh & Hv & Hwms & Hwfc & Hts & Htc & Hmid & Hbs & Hbc) end.
+
+Theorem tls12_chacha_connection s r hv random sid suite es more cs x xs k ms_s Fc mid version evs stc sts stc' sts' rs :
+  hello_premises s r hv random sid suite es more TLS12 ms_s Fc mid ->
+  split_cipher_suite tbl parts (from_be suite) = Some cs -> algo_of cs = Some ChaCha20Poly1305 ->
+  find_session_secrets keylog s = x :: xs -> derive_session_keys C TLS12 cs (x :: xs) (ts_client_random s) random = Ok (K12 k) ->
+  len version = 2 -> 8 <= len (client_iv k) -> 8 <= len (server_iv k) -> ss_seq stc = 0 -> ss_seq sts = 0 -> Z.of_nat (length evs) <= 2 ^ 64 ->
+  Forall Chacha.ev12_ok evs -> Chacha.ordered false false evs ->
+  Chacha.play12 C (client_key k) (client_iv k) (server_key k) (server_iv k) version stc sts evs = Ok (stc', sts', rs) ->
+  exists s' out, session_run C tbl parts keylog s ((true, r) :: mid ++ rs) = Ok (s', out) /\ data_entries out = flat_map Chacha.app_of evs.
+Proof.
+  intros HP Hcs Ha Hf Hk Lver Li1 Li2 S1 S2 Hn Hev Hord Hplay. destruct HP as (Hch & H1 & H2 & Hss & Hsc & Hty & Hb0 & Lhv & Lr & Lsid & Lsu & Hes & Hwsh & Hv & Hwms & Hwfc & Hts & Htc & Hmid & Hbs & Hbc).
+  apply (connection_gen
+           (fun d => Chacha.class12 d /\ P12 false (client_key k) (client_iv k) (s_tag cs) (length evs) d stc /\ P12 true (server_key k) (server_iv k) (s_tag cs) (length evs) d sts)
+           (fun s1 => Chacha.Inv12 (client_key k) (client_iv k) (server_key k) (server_iv k) (s_tag cs) s1 stc sts false false (length evs))
+           (flat_map Chacha.app_of evs) s r hv random sid suite es more TLS12 ms_s Fc mid rs); try assumption.
+  - intros s1 d J1 J2 J3 J4 J5 J6. unfold Chacha.Inv12. split; [exact J1|]. split; [exists TLS12; split; [exact J2|discriminate]|]. split; [exact J3|]. split; [exact J4|]. exists d. split; [exact J5|exact J6].
+  - intros s1 s2. apply ChInv12_core.
+  - intros s1 HI. destruct (Chacha.tls12_chacha_session C L tbl parts keylog (client_key k) (client_iv k) (server_key k) (server_iv k) version (s_tag cs) Lver Li1 Li2 evs s1 stc sts false false stc' sts' rs HI Hev Hord Hplay)
+      as (s' & out & _ & _ & Hrun & Hd & _). exists s', out. split; [exact Hrun|exact Hd].
+  - intros s2 E1 E2 E3. rewrite <- E1 in Hk. rewrite <- (find_secrets_same s s2 E1) in Hf.
+    destruct (keys_installed_chacha C tbl parts keylog s2 suite random cs x xs k stc sts (length evs) Hcs Hf Hk Ha E2 S1 S2 Hn) as (d & Hg & Hrest). exists d. split; [exact Hg|exact Hrest].
+Qed.
+
+Theorem rc4_connection s r hv random sid suite es more cs x xs k v ms_s Fc mid version evs stc sts stc' sts' rs :
+  hello_premises s r hv random sid suite es more v ms_s Fc mid -> v <> TLS13 ->
+  split_cipher_suite tbl parts (from_be suite) = Some cs -> algo_of cs = Some ARC4 ->
+  find_session_secrets keylog s = x :: xs -> derive_session_keys C v cs (x :: xs) (ts_client_random s) random = Ok (K12 k) ->
+  5 <= len (client_key k) <= 32 -> 5 <= len (server_key k) <= 32 -> 0 < digest_size (s_mac cs) -> ss_off stc = 0 -> ss_off sts = 0 ->
+  Forall (evG_ok (bytes * bytes) (fun y => len (snd y) = digest_size (s_mac cs))) evs -> orderedG (bytes * bytes) false false evs ->
+  playG version (bytes * bytes) (send_rc4_dir C version (client_key k) (server_key k)) stc sts evs = Ok (stc', sts', rs) ->
+  exists s' out, session_run C tbl parts keylog s ((true, r) :: mid ++ rs) = Ok (s', out) /\ data_entries out = flat_map (appG (bytes * bytes) fst) evs.
+Proof.
+  intros HP Hv13 Hcs Ha Hf Hk L1 L2 Hm O1 O2 Hev Hord Hplay. destruct HP as (Hch & H1 & H2 & Hss & Hsc & Hty & Hb0 & Lhv & Lr & Lsid & Lsu & Hes & Hwsh & Hv & Hwms & Hwfc & Hts & Htc & Hmid & Hbs & Hbc).
+  apply (connection_gen
+           (fun d => Qrc4 (client_key k) (server_key k) (digest_size (s_mac cs)) (length evs) d stc sts)
+           (fun s1 => InvG (Qrc4 (client_key k) (server_key k) (digest_size (s_mac cs))) s1 stc sts false false (length evs))
+           (flat_map (appG (bytes * bytes) fst) evs) s r hv random sid suite es more v ms_s Fc mid rs); try assumption.
+  - intros s1 d J1 J2 J3 J4 J5 J6. unfold InvG. split; [exact J1|]. split; [exists v; split; [exact J2|exact Hv13]|]. split; [exact J3|]. split; [exact J4|]. exists d. split; [exact J5|exact J6].
+  - intros s1 s2. apply InvG_core.
+  - intros s1 HI. destruct (rc4_session C L tbl parts keylog version (client_key k) (server_key k) (digest_size (s_mac cs)) evs s1 stc sts false false stc' sts' rs HI Hev Hord Hplay)
+      as (s' & out & _ & _ & Hrun & Hd & _). exists s', out. split; [exact Hrun|exact Hd].
+  - intros s2 E1 E2 E3. rewrite <- E1 in Hk. rewrite <- (find_secrets_same s s2 E1) in Hf.
+    destruct (keys_installed_rc4 C tbl parts keylog s2 v suite random cs x xs k stc sts (length evs) Hcs Hf Hk Ha Hv13 L1 L2 Hm O1 O2) as (d & Hg & Hrest). exists d. split; [exact Hg|exact Hrest].
+Qed.
+
+Theorem cbc_explicit_connection s r hv random sid suite es more cs a x xs k v ms_s Fc mid version evs stc sts stc' sts' rs :
+  hello_premises s r hv random sid suite es more v ms_s Fc mid -> v = TLS12 \/ v = TLS11 ->
+  split_cipher_suite tbl parts (from_be suite) = Some cs -> algo_of cs = Some a -> get_cipher_type (Some a) = CT_Block ->
+  find_session_secrets keylog s = x :: xs -> derive_session_keys C v cs (x :: xs) (ts_client_random s) random = Ok (K12 k) -> 0 < digest_size (s_mac cs) ->
+  let etm := existsb (fun e => bytes_eqb (fst e) [0; 22]) (exts_dict es) in
+  Forall (evG_ok xe (xe_ok a (digest_size (s_mac cs)))) evs -> orderedG xe false false evs ->
+  playG version xe (send_cbce_dir C version (client_key k) (server_key k) a etm) stc sts evs = Ok (stc', sts', rs) ->
+  exists s' out, session_run C tbl parts keylog s ((true, r) :: mid ++ rs) = Ok (s', out) /\ data_entries out = flat_map (appG xe xe_content) evs.
+Proof.
+  intros HP Hvv Hcs Ha Hb Hf Hk Hm etm Hev Hord Hplay. destruct HP as (Hch & H1 & H2 & Hss & Hsc & Hty & Hb0 & Lhv & Lr & Lsid & Lsu & Hes & Hwsh & Hv & Hwms & Hwfc & Hts & Htc & Hmid & Hbs & Hbc).
+  assert (Hv13 : v <> TLS13) by (destruct Hvv as [-> | ->]; discriminate).
+  apply (connection_gen
+           (fun d => Qcbce (client_key k) (server_key k) a etm (digest_size (s_mac cs)) (length evs) d stc sts)
+           (fun s1 => InvG (Qcbce (client_key k) (server_key k) a etm (digest_size (s_mac cs))) s1 stc sts false false (length evs))
+           (flat_map (appG xe xe_content) evs) s r hv random sid suite es more v ms_s Fc mid rs); try assumption.
+  - intros s1 d J1 J2 J3 J4 J5 J6. unfold InvG. split; [exact J1|]. split; [exists v; split; [exact J2|exact Hv13]|]. split; [exact J3|]. split; [exact J4|]. exists d. split; [exact J5|exact J6].
+  - intros s1 s2. apply InvG_core.
+  - intros s1 HI. destruct (cbc_explicit_session C L tbl parts keylog version (client_key k) (server_key k) a etm (digest_size (s_mac cs)) evs s1 stc sts false false stc' sts' rs HI Hev Hord Hplay)
+      as (s' & out & _ & _ & Hrun & Hd & _). exists s', out. split; [exact Hrun|exact Hd].
+  - intros s2 E1 E2 E3. rewrite <- E1 in Hk. rewrite <- (find_secrets_same s s2 E1) in Hf.
+    destruct (keys_installed_cbc_explicit C tbl parts keylog s2 v suite random cs a x xs k stc sts (length evs) Hcs Hf Hk Ha Hb Hvv E2 Hm) as (d & Hg & Hrest). exists d. split; [exact Hg|]. unfold etm. rewrite <- E3. exact Hrest.
+Qed.
+
+Theorem cbc_chained_connection s r hv random sid suite es more cs a x xs k v ms_s Fc mid version evs stc sts stc' sts' rs :
+  hello_premises s r hv random sid suite es more v ms_s Fc mid -> v = TLS10 \/ v = SSL30 ->
+  split_cipher_suite tbl parts (from_be suite) = Some cs -> algo_of cs = Some a -> get_cipher_type (Some a) = CT_Block ->
+  find_session_secrets keylog s = x :: xs -> derive_session_keys C v cs (x :: xs) (ts_client_random s) random = Ok (K12 k) -> 0 < digest_size (s_mac cs) ->
+  ss_last stc = client_iv k -> ss_last sts = server_iv k ->
+  let etm := existsb (fun e => bytes_eqb (fst e) [0; 22]) (exts_dict es) in
+  Forall (evG_ok xc (xc_ok (digest_size (s_mac cs)))) evs -> orderedG xc false false evs ->
+  playG version xc (send_cbcc_dir C version (client_key k) (server_key k) a etm (block_size_of cs)) stc sts evs = Ok (stc', sts', rs) ->
+  exists s' out, session_run C tbl parts keylog s ((true, r) :: mid ++ rs) = Ok (s', out) /\ data_entries out = flat_map (appG xc xc_content) evs.
+Proof.
+  intros HP Hvv Hcs Ha Hb Hf Hk Hm I1 I2 etm Hev Hord Hplay. destruct HP as (Hch & H1 & H2 & Hss & Hsc & Hty & Hb0 & Lhv & Lr & Lsid & Lsu & Hes & Hwsh & Hv & Hwms & Hwfc & Hts & Htc & Hmid & Hbs & Hbc).
+  assert (Hv13 : v <> TLS13) by (destruct Hvv as [-> | ->]; discriminate).
+  apply (connection_gen
+           (fun d => Qcbcc (client_key k) (server_key k) a etm (digest_size (s_mac cs)) (block_size_of cs) (length evs) d stc sts)
+           (fun s1 => InvG (Qcbcc (client_key k) (server_key k) a etm (digest_size (s_mac cs)) (block_size_of cs)) s1 stc sts false false (length evs))
+           (flat_map (appG xc xc_content) evs) s r hv random sid suite es more v ms_s Fc mid rs); try assumption.
+  - intros s1 d J1 J2 J3 J4 J5 J6. unfold InvG. split; [exact J1|]. split; [exists v; split; [exact J2|exact Hv13]|]. split; [exact J3|]. split; [exact J4|]. exists d. split; [exact J5|exact J6].
+  - intros s1 s2. apply InvG_core.
+  - intros s1 HI. destruct (cbc_chained_session C L tbl parts keylog version (client_key k) (server_key k) a etm (digest_size (s_mac cs)) (block_size_of cs) evs s1 stc sts false false stc' sts' rs HI Hev Hord Hplay)
+      as (s' & out & _ & _ & Hrun & Hd & _). exists s', out. split; [exact Hrun|exact Hd].
+  - intros s2 E1 E2 E3. rewrite <- E1 in Hk. rewrite <- (find_secrets_same s s2 E1) in Hf.
+    destruct (keys_installed_cbc_chained C tbl parts keylog s2 v suite random cs a x xs k stc sts (length evs) Hcs Hf Hk Ha Hb Hvv E2 Hm I1 I2) as (d & Hg & Hrest). exists d. split; [exact Hg|]. unfold etm. rewrite <- E3. exact Hrest.
 Qed.
 End Conn.
